@@ -18,7 +18,7 @@ try:
     suite = r.stdout.strip() == ""
     print("BENIGN %s: applies=%s suite_passes=%s" % (os.path.basename(os.path.dirname(sd)) + "/" + os.path.basename(sd), ok_apply, suite), flush=True)
     def runp(p):
-        pr = subprocess.run("cd /verif && VERIF_REPO=%s VERIF_SCRATCH=/tmp timeout 1800 bin/check %s 2>&1" % (wt, p), shell=True, capture_output=True, text=True)
+        pr = subprocess.run("cd /verif && VERIF_REPO=%s VERIF_SCRATCH=/tmp VERIF_EVIDENCE_DIR=/tmp/seed-evidence VERIF_REPLAY_DIR=/tmp/seed-replays timeout 1800 bin/check %s 2>&1" % (wt, p), shell=True, capture_output=True, text=True)
         return p, pr.returncode, pr.stdout
     res = {}
     with concurrent.futures.ThreadPoolExecutor(max_workers=5) as ex:
